@@ -143,9 +143,9 @@ func init() {
 		Run: func(c *RunCtx) {
 			res := c.Res
 			toks := append(c19Tokens(3), c19Special...)
-			np, nt := 150, 24
+			np, nt := 300, 24
 			if c.Tier == "thorough" {
-				np, nt = 400, 48
+				np, nt = 600, 48
 			}
 			// subset for pairs/triples: every token of length <= 1, the special ones, and a deterministic spread of the rest
 			var sub []string
